@@ -115,6 +115,7 @@ def op_strategy():
         st.tuples(st.just("iadd_str"), gen.safe_text(0, 4)).map(list),
         st.tuples(st.just("slice"), st.integers(-6, 6) | st.none(), st.integers(-6, 6) | st.none(), st.sampled_from([None, 1, 2, -1])).map(list),
         st.tuples(st.just("mul"), st.integers(0, 3), st.booleans()).map(list),
+        st.tuples(st.just("shared"), st.lists(args(bad_ok=False), min_size=1, max_size=3), st.sampled_from(["append", "extend", "new", "add"]), st.sampled_from(["list", "taglist"])).map(list),
     )
 
 
@@ -320,6 +321,31 @@ def body(case, note):
                 same(list(real), model, "slice (operand must stay unchanged)")
                 classes.add("op:slice")
                 continue
+            elif name == "shared":
+                # one container object occurring several times in the arguments of a single call
+                import htmltools as _h
+
+                inner = [build_arg(r) for r in op[1]]
+                box = _h.TagList(*inner) if op[3] == "taglist" else list(inner)
+                argv = [box, "sep", (box, [box])]
+                flat = flatten(argv, [])
+                how = op[2]
+                if how == "new":
+                    res = h.TagList(*argv)
+                    same(list(res), flat, "constructor with a shared container")
+                elif how == "add":
+                    res = real + argv
+                    same(list(res), model + flat, "+ with a shared container")
+                else:
+                    if how == "append":
+                        (tag.append if tag is not None else real.append)(*argv)
+                    else:
+                        (tag.extend if tag is not None else real.extend)(argv)
+                    model = model + flat
+                    same(list(real), model, how + " with a shared container")
+                    n_mut += 1
+                classes.add("op:shared")
+                continue
             elif name == "mul":
                 n, left = op[1], op[2]
                 res = (n * real) if left else (real * n)
@@ -412,7 +438,7 @@ CLAUSES = [
         quick=800,
         thorough=12000,
         shards_quick=4,
-        required=("op:append", "op:extend", "op:insert", "op:add", "op:radd", "op:iadd", "op:iadd_str", "op:slice", "op:mul", "op:extend_str", "rejected:insert", "rejected:iadd", "on-tag", "on-list"),
+        required=("op:append", "op:extend", "op:insert", "op:add", "op:radd", "op:iadd", "op:iadd_str", "op:slice", "op:mul", "op:extend_str", "op:shared", "rejected:insert", "rejected:iadd", "on-tag", "on-list"),
         rule="see RULE",
     ),
     Clause("is-child", body_is_child, strategy=lambda: st.fixed_dictionaries({"arg": args().map(taglist_safe)}), quick=600, thorough=5000, shards_quick=1, shards_thorough=4, required=("kind:num:int", "kind:num:float", "rejected"), rule="every case"),
